@@ -98,13 +98,30 @@ def simplify_plan(plan, test):
             else:
                 sw, t = core.ddmin(p["switches"], test_sw, 120)
                 p["switches"] = sw; tests += t
-    for i in range(len(p["ops"])):
-        for key in ("f", "sf"):
-            if key in p["ops"][i]:
-                q = copy.deepcopy(p); del q["ops"][i][key]
+    # attached faults: C19 plans carry transient per-operation faults (dropped one by one); C13/C18 plans model a
+    # deterministic converter, so a fault is dropped for every operation on the same address at once
+    if p.get("prop") == "C19":
+        for i in range(len(p["ops"])):
+            if "f" in p["ops"][i]:
+                q = copy.deepcopy(p); del q["ops"][i]["f"]
                 tests += 1
                 if test(q):
                     p = q
+    else:
+        for a in sorted(set(op.get("a") for op in p["ops"] if "f" in op)):
+            q = copy.deepcopy(p)
+            for op in q["ops"]:
+                if op.get("a") == a and "f" in op:
+                    del op["f"]
+            tests += 1
+            if test(q):
+                p = q
+    for i in range(len(p["ops"])):
+        if "sf" in p["ops"][i]:
+            q = copy.deepcopy(p); del q["ops"][i]["sf"]
+            tests += 1
+            if test(q):
+                p = q
     return p, tests
 
 
